@@ -8,6 +8,7 @@
 //	go f(args)                    -> simrt.Go(func(){ f(args) })   (arguments evaluated first)
 //	time.AfterFunc / time.Sleep   -> simrt.AfterFunc / simrt.Sleep
 //	runtime.SetFinalizer          -> simrt.SetFinalizer (registers nothing)
+//	runtime.GOMAXPROCS / NumCPU   -> simrt.GOMAXPROCS / simrt.NumCPU (a per-run value drawn from the run seed: 1, 2, 4 or 16)
 //	runtime.Gosched               -> simrt.Gosched (scheduling point; lets simulated time pass when a task spins on it)
 //	channel send/receive/close/select/range -> bracketed by simrt.PreChan()/PostChan()
 //
@@ -260,6 +261,11 @@ func instrument(path, rel, out string) error {
 			x.Name = "simrt"
 			c.usesSimrt = true
 			rep.Sleeps = append(rep.Sleeps, c.pos(call))
+		case c.rtName != "" && x.Name == c.rtName && (sel.Sel.Name == "GOMAXPROCS" || sel.Sel.Name == "NumCPU"):
+			// the machine's parallelism is environment, not input: a per-run value from the run seed
+			x.Name = "simrt"
+			c.usesSimrt = true
+			rep.Goscheds = append(rep.Goscheds, c.pos(call)+" "+sel.Sel.Name)
 		case c.rtName != "" && x.Name == c.rtName && sel.Sel.Name == "Gosched":
 			x.Name = "simrt"
 			c.usesSimrt = true
